@@ -240,6 +240,12 @@ class C13:
                     V("trace-frame-from-unclaimed-address", "frame id 0x%08X was sent from address %d at t=%.4f; the last address this CA "
                       "claimed on the bus is %d" % (e.can_id, sa, e.t - 1000, claimed))
                     break
+            # a service built on the send calls (the DM1 cycle) has no caller to raise to: whatever it does while the CA has no
+            # address, it must not take the ECU's background thread - and with it the CA's own claim timer - down
+            for k2, detail, tt in w.liveness_problems():
+                V("liveness-" + k2, "%s %r at t=%.4f" % (k2, detail, tt - 1000), "dm1" if p["dm1_tail"] else "")
+            if not s.alive() and not w.liveness_problems():
+                V("liveness-thread-dead", "job thread dead: %r" % (s.dead_threads(),))
         finally:
             w.close()
         return {"violations": viol, "labels": sorted(set(labels)) + ["aac" if p["aac"] else "fixed", "bypass" if p["bypass"] else "claim"],
